@@ -75,6 +75,8 @@ class Translator:
         self.env, self.cls = env, cls
         self.const_vals = {}      # name -> Node (CRef) | VecConst
         self.method_nodes = {n.name: n for n in cls.body if isinstance(n, ast.FunctionDef)}
+        self.module_funcs = {}
+        self.depth = 0
 
     # ---------------------------------------------------------------- expressions
     def expr(self, n, scope):
@@ -161,9 +163,31 @@ class Translator:
     def call(self, n, scope):
         f = n.func
         if isinstance(f, ast.Attribute) and isinstance(f.value, ast.Name) and f.value.id == "jnp":
-            if n.keywords:
+            if any(k.arg != "dtype" for k in n.keywords) or (n.keywords and f.attr not in ("array", "asarray", "stack")):
                 fail(n, "keyword arguments to a jnp function")
             args = [self.expr(a, scope) for a in n.args]
+            # equivalent spellings of supported operations (a harmless rewrite of the source must still translate)
+            if f.attr == "square" and len(args) == 1:
+                return Pow(as_real(args[0], n), 2)
+            if f.attr == "power" and len(args) == 2 and isinstance(n.args[1], ast.Constant) \
+                    and isinstance(n.args[1].value, int) and 1 <= n.args[1].value <= 4:
+                return Pow(as_real(args[0], n), n.args[1].value)
+            if f.attr in ("add", "subtract", "multiply", "divide", "true_divide") and len(args) == 2:
+                op = {"add": "+", "subtract": "-", "multiply": "*", "divide": "/", "true_divide": "/"}[f.attr]
+                return Bin(op, as_real(args[0], n), as_real(args[1], n))
+            if f.attr == "negative" and len(args) == 1:
+                return Neg(as_real(args[0], n))
+            if f.attr in ("abs", "absolute") and len(args) == 1:
+                x = as_real(args[0], n)
+                return MinMax("max", x, Neg(x))
+            if f.attr in ("logical_and", "logical_or") and len(args) == 2:
+                return BoolOp("and" if f.attr == "logical_and" else "or", scalar(args[0], n, ("B",)), scalar(args[1], n, ("B",)))
+            if f.attr == "logical_not" and len(args) == 1:
+                return Not(scalar(args[0], n, ("B",)))
+            if f.attr in ("stack", "hstack") and len(args) == 1 and is_vec(args[0]):
+                return args[0]
+            if f.attr in ("float32", "float64") and len(args) == 1:
+                return as_real(args[0], n)
             if f.attr in ("sin", "cos") and len(args) == 1:
                 return Fn(f.attr, as_real(args[0], n))
             if f.attr == "clip" and len(args) == 3:
@@ -189,6 +213,27 @@ class Translator:
             fail(n, "unsupported call of self.terminal")
         if isinstance(f, ast.Attribute) and isinstance(f.value, ast.Name) and f.value.id == "jr" and f.attr == "uniform":
             return self.uniform(n, scope)
+        # a private helper (method of the class or module-level function) taking positional values: inlined
+        helper = None
+        if isinstance(f, ast.Attribute) and isinstance(f.value, ast.Name) and f.value.id == "self" \
+                and f.attr in self.method_nodes and f.attr not in METHODS + ("initial", "__init__", "step", "reset"):
+            helper, skip = self.method_nodes[f.attr], 1
+        elif isinstance(f, ast.Name) and f.id in self.module_funcs:
+            helper, skip = self.module_funcs[f.id], 0
+        if helper is not None:
+            a = helper.args
+            pos = [x.arg for x in a.args][skip:]
+            if a.posonlyargs or a.vararg or a.kwarg or a.defaults or a.kwonlyargs or n.keywords or len(pos) != len(n.args):
+                fail(n, "unsupported helper signature")
+            if self.depth > 4:
+                fail(n, "helper calls nested too deeply")
+            inner = {p: self.expr(x, scope) for p, x in zip(pos, n.args)}
+            self.depth += 1
+            try:
+                _, ret = self.body(helper, inner, inline=True)
+            finally:
+                self.depth -= 1
+            return ret
         fail(n, "unsupported call")
 
     def uniform(self, n, scope):
@@ -336,14 +381,14 @@ class Translator:
         self.env.funcs[name] = f
         return f
 
-    def body(self, fn, scope):
+    def body(self, fn, scope, inline=False):
         lets = []
         counter = {}
 
         def bind(name, v, node):
             if name == "_":
                 return
-            if is_vec(v):
+            if is_vec(v) or inline:
                 scope[name] = v
                 return
             v = scalar(v, node)
@@ -440,6 +485,7 @@ def translate_env(path: Path, cls_name: str) -> EnvIR:
     doc = ast.get_docstring(cls) or ""
     env.docs_gymnasium = "gymnasium.farama.org" in doc
     tr = Translator(env, cls)
+    tr.module_funcs = {n.name: n for n in mod.body if isinstance(n, ast.FunctionDef)}
     tr.init()
     for m in METHODS:
         tr.method(m)
